@@ -40,30 +40,92 @@ Definition result_rank_ok (a b r : value) : Prop :=
   num_rank r = Z.max (num_rank a) (num_rank b) \/
   (num_rank a = 0 /\ num_rank b = 0 /\ num_rank r = 1).
 
-Theorem add_type a b r :
-  is_num a = true -> is_num b = true -> Add a b = Ok r -> result_rank_ok a b r.
+(* ---- the nonFinite test in front of Add / Mul ---- *)
+
+Lemma non_finite_no_decimal a b mul :
+  is_decimal_value a = false -> is_decimal_value b = false -> non_finite a b mul = None.
+Proof. intros Ha Hb. unfold non_finite. rewrite Ha, Hb. reflexivity. Qed.
+
+Lemma non_finite_special a b mul r :
+  non_finite a b mul = Some r -> r = d128_nan \/ r = d128_pos_inf \/ r = d128_neg_inf.
+Proof.
+  unfold non_finite. destruct (negb (is_decimal_value a || is_decimal_value b)); [discriminate|].
+  destruct (number_shape a) as [sa|]; [|discriminate]. destruct (number_shape b) as [sb|]; [|discriminate].
+  repeat match goal with |- context [if ?c then _ else _] => destruct c end; intro H; try discriminate;
+    injection H as <-; auto.
+Qed.
+
+Lemma special_rank r : r = d128_nan \/ r = d128_pos_inf \/ r = d128_neg_inf -> num_rank r = 3.
+Proof. intros [->|[->| ->]]; reflexivity. Qed.
+
+Lemma non_finite_needs_decimal a b mul r :
+  non_finite a b mul = Some r -> is_decimal_value a = true \/ is_decimal_value b = true.
+Proof.
+  unfold non_finite. destruct (is_decimal_value a); [auto|]. destruct (is_decimal_value b); [auto|]. discriminate.
+Qed.
+
+Lemma Add_finite a b : non_finite a b false = None -> Add a b = add_finite a b.
+Proof. intro H. unfold Add. rewrite H. reflexivity. Qed.
+
+Lemma Mul_finite a b : non_finite a b true = None -> Mul a b = mul_finite a b.
+Proof. intro H. unfold Mul. rewrite H. reflexivity. Qed.
+
+Lemma decimal_rank_max a b :
+  is_num a = true -> is_num b = true -> is_decimal_value a = true \/ is_decimal_value b = true ->
+  Z.max (num_rank a) (num_rank b) = 3.
+Proof.
+  intros Ha Hb [H|H]; destruct a; try discriminate; destruct b; try discriminate; reflexivity.
+Qed.
+
+Lemma add_finite_type a b r :
+  is_num a = true -> is_num b = true -> add_finite a b = Ok r -> result_rank_ok a b r.
 Proof.
   intros Ha Hb H. unfold result_rank_ok.
-  destruct a; try discriminate; destruct b; try discriminate; cbn [Add] in H;
+  destruct a; try discriminate; destruct b; try discriminate; cbn [add_finite] in H;
     try (injection H as <-; cbn; unfold narrow_int32, checked_int64;
          repeat match goal with |- context [if ?c then _ else _] => destruct c end; cbn; auto; fail);
     (destruct (dec_binop_decimal _ _ _ _ Ha Hb H) as [E|E]; [left; exact E | right; left; rewrite E; reflexivity]).
+Qed.
+
+Lemma mul_finite_type a b r :
+  is_num a = true -> is_num b = true -> mul_finite a b = Ok r -> result_rank_ok a b r.
+Proof.
+  intros Ha Hb H. unfold result_rank_ok.
+  destruct a; try discriminate; destruct b; try discriminate; cbn [mul_finite] in H;
+    try (injection H as <-; cbn; unfold narrow_int32, checked_int64;
+         repeat match goal with |- context [if ?c then _ else _] => destruct c end; cbn; auto; fail);
+    (destruct (dec_binop_decimal _ _ _ _ Ha Hb H) as [E|E]; [left; exact E | right; left; rewrite E; reflexivity]).
+Qed.
+
+Theorem add_type a b r :
+  is_num a = true -> is_num b = true -> Add a b = Ok r -> result_rank_ok a b r.
+Proof.
+  intros Ha Hb H. unfold Add in H. destruct (non_finite a b false) as [s|] eqn:N.
+  - injection H as <-. right. left.
+    rewrite (special_rank _ (non_finite_special _ _ _ _ N)).
+    symmetry. apply decimal_rank_max; auto. eapply non_finite_needs_decimal; exact N.
+  - apply add_finite_type; assumption.
 Qed.
 
 Theorem mul_type a b r :
   is_num a = true -> is_num b = true -> Mul a b = Ok r -> result_rank_ok a b r.
 Proof.
-  intros Ha Hb H. unfold result_rank_ok.
-  destruct a; try discriminate; destruct b; try discriminate; cbn [Mul] in H;
-    try (injection H as <-; cbn; unfold narrow_int32, checked_int64;
-         repeat match goal with |- context [if ?c then _ else _] => destruct c end; cbn; auto; fail);
-    (destruct (dec_binop_decimal _ _ _ _ Ha Hb H) as [E|E]; [left; exact E | right; left; rewrite E; reflexivity]).
+  intros Ha Hb H. unfold Mul in H. destruct (non_finite a b true) as [s|] eqn:N.
+  - injection H as <-. right. left.
+    rewrite (special_rank _ (non_finite_special _ _ _ _ N)).
+    symmetry. apply decimal_rank_max; auto. eapply non_finite_needs_decimal; exact N.
+  - apply mul_finite_type; assumption.
 Qed.
 
 (* non-numbers give Missing, whatever the other operand *)
 Theorem add_non_number a b : is_num a = false \/ is_num b = false -> Add a b = Ok VMissing.
 Proof.
-  intros [H|H]; destruct a; try discriminate; destruct b; try discriminate; try reflexivity.
+  intros H. assert (N : non_finite a b false = None).
+  { unfold non_finite. destruct (negb (is_decimal_value a || is_decimal_value b)); [reflexivity|].
+    destruct H as [H|H]; [destruct a | destruct b]; try discriminate; cbn [number_shape]; try reflexivity;
+      destruct (number_shape _); reflexivity. }
+  rewrite (Add_finite _ _ N).
+  destruct H as [H|H]; destruct a; try discriminate; destruct b; try discriminate; try reflexivity.
 Qed.
 
 (* ------------------------------------------------------------------ *)
@@ -393,6 +455,11 @@ Proof.
   - injection H as <-. left. reflexivity.
 Qed.
 
+Lemma non_finite_finite_decimals h1 l1 h2 l2 c1 e1 c2 e2 mul :
+  dec_decode h1 l1 = DFin c1 e1 -> dec_decode h2 l2 = DFin c2 e2 ->
+  non_finite (VDecimal h1 l1) (VDecimal h2 l2) mul = None.
+Proof. intros D1 D2. unfold non_finite. cbn [is_decimal_value orb negb number_shape]. rewrite D1, D2. reflexivity. Qed.
+
 (* Mul / Add of two finite decimals: the exact product / sum, or rejected *)
 Theorem mul_decimal_exact_or_rejected h1 l1 h2 l2 c1 e1 c2 e2 r :
   dec_decode h1 l1 = DFin c1 e1 -> dec_decode h2 l2 = DFin c2 e2 ->
@@ -400,7 +467,8 @@ Theorem mul_decimal_exact_or_rejected h1 l1 h2 l2 c1 e1 c2 e2 r :
   r = VMissing \/
   exists h l c' e', r = VDecimal h l /\ dec_decode h l = DFin c' e' /\ same_decimal (c1 * c2) (e1 + e2) c' e'.
 Proof.
-  intros D1 D2 H. cbn [Mul] in H. unfold dec_binop, dec_operand, dec_of_d128 in H. rewrite D1, D2 in H.
+  intros D1 D2 H. rewrite (Mul_finite _ _ (non_finite_finite_decimals _ _ _ _ _ _ _ _ _ D1 D2)) in H.
+  cbn [mul_finite] in H. unfold dec_binop, dec_operand, dec_of_d128 in H. rewrite D1, D2 in H.
   cbn [dec_mul] in H. apply dec_result_exact_or_rejected. exact H.
 Qed.
 
@@ -412,7 +480,8 @@ Theorem add_decimal_exact_or_rejected h1 l1 h2 l2 c1 e1 c2 e2 r :
   r = VMissing \/
   exists h l c' e', r = VDecimal h l /\ dec_decode h l = DFin c' e' /\ same_decimal c e c' e'.
 Proof.
-  intros D1 D2 H e c. cbn [Add] in H. unfold dec_binop, dec_operand, dec_of_d128 in H. rewrite D1, D2 in H.
+  intros D1 D2 H e c. rewrite (Add_finite _ _ (non_finite_finite_decimals _ _ _ _ _ _ _ _ _ D1 D2)) in H.
+  cbn [add_finite] in H. unfold dec_binop, dec_operand, dec_of_d128 in H. rewrite D1, D2 in H.
   cbn [dec_add] in H. apply dec_result_exact_or_rejected. exact H.
 Qed.
 
@@ -423,7 +492,8 @@ Theorem mul_decimal_fits h1 l1 h2 l2 c1 e1 c2 e2 :
   exists h l, Mul (VDecimal h1 l1) (VDecimal h2 l2) = Ok (VDecimal h l) /\
               dec_decode h l = DFin (c1 * c2) (e1 + e2).
 Proof.
-  intros D1 D2 Hc He. cbn [Mul]. unfold dec_binop, dec_operand, dec_of_d128. rewrite D1, D2.
+  intros D1 D2 Hc He. rewrite (Mul_finite _ _ (non_finite_finite_decimals _ _ _ _ _ _ _ _ _ D1 D2)).
+  cbn [mul_finite]. unfold dec_binop, dec_operand, dec_of_d128. rewrite D1, D2.
   cbn [dec_mul]. apply dec_result_fits; assumption.
 Qed.
 
@@ -434,10 +504,193 @@ Theorem add_decimal_fits h1 l1 h2 l2 c1 e1 c2 e2 :
   Z.abs c <= d128_maxS -> d128_min_exp <= e <= d128_max_exp ->
   exists h l, Add (VDecimal h1 l1) (VDecimal h2 l2) = Ok (VDecimal h l) /\ dec_decode h l = DFin c e.
 Proof.
-  intros D1 D2 e c Hc He. cbn [Add]. unfold dec_binop, dec_operand, dec_of_d128. rewrite D1, D2.
+  intros D1 D2 e c Hc He. rewrite (Add_finite _ _ (non_finite_finite_decimals _ _ _ _ _ _ _ _ _ D1 D2)).
+  cbn [add_finite]. unfold dec_binop, dec_operand, dec_of_d128. rewrite D1, D2.
   cbn [dec_add]. apply dec_result_fits; assumption.
 Qed.
 
 (* the former counter-example: the 50-digit product is rejected now *)
 Theorem decimal_overflow_rejected : Mul dec_a dec_b = Ok VMissing.
 Proof. vm_compute. reflexivity. Qed.
+
+(* ------------------------------------------------------------------ *)
+(* NaN and infinities next to a Decimal128 (after the nonFinite fix): the
+   IEEE 754 table *)
+
+Inductive nkind : Type :=
+| KNaN
+| KInf (neg : bool)
+| KFin (neg zero : bool).     (* finite: sign, is it zero *)
+
+(* the kind of a number, read off its exact interpretation *)
+Definition kind_of (v : value) : option nkind :=
+  match v with
+  | VInt32 z | VInt64 z => Some (KFin (z <? 0) (z =? 0))
+  | VDouble b =>
+      if is_nan_bits b then Some KNaN
+      else if is_inf_bits b then Some (KInf (dbl_sign b))
+      else Some (KFin (dbl_sign b) (is_zero_bits b))
+  | VDecimal h l =>
+      match dec_decode h l with
+      | DNaN => Some KNaN
+      | DInf n => Some (KInf n)
+      | DFin c _ => Some (KFin (1 <=? h / 2 ^ 63) (c =? 0))
+      end
+  | _ => None
+  end.
+
+Definition d128_inf (neg : bool) : value := if neg then d128_neg_inf else d128_pos_inf.
+
+(* IEEE 754 addition / multiplication when an operand is NaN or infinite;
+   None: both operands are finite *)
+Definition ieee_add (x y : nkind) : option value :=
+  match x, y with
+  | KNaN, _ | _, KNaN => Some d128_nan
+  | KInf s, KInf t => if Bool.eqb s t then Some (d128_inf s) else Some d128_nan
+  | KInf s, KFin _ _ | KFin _ _, KInf s => Some (d128_inf s)
+  | KFin _ _, KFin _ _ => None
+  end.
+
+Definition ieee_mul (x y : nkind) : option value :=
+  match x, y with
+  | KNaN, _ | _, KNaN => Some d128_nan
+  | KInf s, KInf t => Some (d128_inf (xorb s t))
+  | KInf s, KFin n z | KFin n z, KInf s => if z then Some d128_nan else Some (d128_inf (xorb s n))
+  | KFin _ _, KFin _ _ => None
+  end.
+
+Lemma nan_not_inf b : is_nan_bits b = true -> is_inf_bits b = false.
+Proof.
+  unfold is_nan_bits, is_inf_bits. destruct (dbl_exp b =? 2047); [|reflexivity].
+  destruct (dbl_man b =? 0); [discriminate | reflexivity].
+Qed.
+
+Definition kind_of_shape (s : shape) : nkind :=
+  if sh_nan s then KNaN else if sh_inf s then KInf (sh_neg s) else KFin (sh_neg s) (sh_zero s).
+
+Lemma inf_not_zero b : is_inf_bits b = true -> is_zero_bits b = false.
+Proof.
+  unfold is_inf_bits, is_zero_bits. destruct (Z.eqb_spec (dbl_exp b) 2047) as [E|]; [|discriminate].
+  intros _. rewrite E. reflexivity.
+Qed.
+
+Lemma kind_shape v k : kind_of v = Some k ->
+  exists s, number_shape v = Some s /\ k = kind_of_shape s /\
+            (sh_nan s = true -> sh_inf s = false) /\ (sh_inf s = true -> sh_zero s = false).
+Proof.
+  destruct v; try discriminate; cbn [kind_of number_shape].
+  - intro H. injection H as <-. eexists. split; [reflexivity|]. split; [reflexivity|]. split; discriminate.
+  - intro H. injection H as <-. eexists. split; [reflexivity|]. split; [reflexivity|]. split; discriminate.
+  - intro H. eexists. split; [reflexivity|]. unfold kind_of_shape. cbn [sh_nan sh_inf sh_neg sh_zero].
+    destruct (is_nan_bits bits) eqn:N.
+    + injection H as <-. split; [reflexivity|]. split; [intros _; apply nan_not_inf; exact N | apply inf_not_zero].
+    + destruct (is_inf_bits bits) eqn:I; injection H as <-; (split; [reflexivity|]); (split; [discriminate|]);
+        [intros _; apply inf_not_zero; exact I | discriminate].
+  - destruct (dec_decode h l); intro H; injection H as <-; eexists; (split; [reflexivity|]); (split; [reflexivity|]);
+      cbn; split; auto; discriminate.
+Qed.
+
+Lemma non_finite_table a b mul ka kb :
+  kind_of a = Some ka -> kind_of b = Some kb -> is_decimal_value a || is_decimal_value b = true ->
+  non_finite a b mul = if mul then ieee_mul ka kb else ieee_add ka kb.
+Proof.
+  intros Ka Kb D. destruct (kind_shape _ _ Ka) as (sa & Sa & -> & Ia & Za). destruct (kind_shape _ _ Kb) as (sb & Sb & -> & Ib & Zb).
+  unfold non_finite. rewrite D, Sa, Sb. cbn [negb]. unfold kind_of_shape.
+  destruct sa as [na ia ga za], sb as [nb ib gb zb]. cbn [sh_nan sh_inf sh_neg sh_zero] in *.
+  destruct na, ia, za, nb, ib, zb;
+    try (discriminate (Ia eq_refl)); try (discriminate (Za eq_refl));
+    try (discriminate (Ib eq_refl)); try (discriminate (Zb eq_refl));
+    destruct ga, gb, mul; reflexivity.
+Qed.
+
+(* Add with a Decimal128 partner: the IEEE table when an operand is NaN or
+   infinite (whatever its type), the finite arithmetic otherwise *)
+Theorem add_nonfinite_spec a b ka kb :
+  kind_of a = Some ka -> kind_of b = Some kb -> is_decimal_value a || is_decimal_value b = true ->
+  Add a b = match ieee_add ka kb with Some r => Ok r | None => add_finite a b end.
+Proof. intros Ka Kb D. unfold Add. rewrite (non_finite_table _ _ false _ _ Ka Kb D). reflexivity. Qed.
+
+Theorem mul_nonfinite_spec a b ka kb :
+  kind_of a = Some ka -> kind_of b = Some kb -> is_decimal_value a || is_decimal_value b = true ->
+  Mul a b = match ieee_mul ka kb with Some r => Ok r | None => mul_finite a b end.
+Proof. intros Ka Kb D. unfold Mul. rewrite (non_finite_table _ _ true _ _ Ka Kb D). reflexivity. Qed.
+
+(* the table answers exactly when an operand is not finite, with a Decimal128 *)
+Theorem ieee_result_special x y r :
+  (ieee_add x y = Some r \/ ieee_mul x y = Some r) ->
+  (r = d128_nan \/ r = d128_pos_inf \/ r = d128_neg_inf) /\ num_rank r = 3.
+Proof.
+  intro H. assert (S : r = d128_nan \/ r = d128_pos_inf \/ r = d128_neg_inf).
+  { destruct H as [H|H]; destruct x as [|[]|[] []], y as [|[]|[] []]; cbn in H; try discriminate; injection H as <-; cbn; auto. }
+  split; [exact S | apply special_rank; exact S].
+Qed.
+
+Theorem ieee_table_domain x y :
+  (ieee_add x y = None <-> exists n1 z1 n2 z2, x = KFin n1 z1 /\ y = KFin n2 z2) /\
+  (ieee_mul x y = None <-> exists n1 z1 n2 z2, x = KFin n1 z1 /\ y = KFin n2 z2).
+Proof.
+  split; split.
+  - destruct x as [|s|n z], y as [|t|n' z']; cbn; try discriminate; [destruct (Bool.eqb s t); discriminate | eauto 8].
+  - intros (n1 & z1 & n2 & z2 & -> & ->). reflexivity.
+  - destruct x as [|s|n z], y as [|t|n' z']; cbn; try discriminate; try (destruct z; discriminate); try (destruct z'; discriminate); eauto 8.
+  - intros (n1 & z1 & n2 & z2 & -> & ->). reflexivity.
+Qed.
+
+(* the product / sum of any two Decimal128 values, on the FULL domain: finite
+   operands give the exact result or are rejected, otherwise the IEEE table *)
+Theorem mul_decimal_total h1 l1 h2 l2 r :
+  Mul (VDecimal h1 l1) (VDecimal h2 l2) = Ok r ->
+  (exists c1 e1 c2 e2, dec_decode h1 l1 = DFin c1 e1 /\ dec_decode h2 l2 = DFin c2 e2 /\
+     (r = VMissing \/
+      exists h l c' e', r = VDecimal h l /\ dec_decode h l = DFin c' e' /\ same_decimal (c1 * c2) (e1 + e2) c' e')) \/
+  (exists ka kb, kind_of (VDecimal h1 l1) = Some ka /\ kind_of (VDecimal h2 l2) = Some kb /\ ieee_mul ka kb = Some r).
+Proof.
+  intro H.
+  destruct (kind_of (VDecimal h1 l1)) as [ka|] eqn:Ka; [|cbn in Ka; destruct (dec_decode h1 l1); discriminate].
+  destruct (kind_of (VDecimal h2 l2)) as [kb|] eqn:Kb; [|cbn in Kb; destruct (dec_decode h2 l2); discriminate].
+  rewrite (mul_nonfinite_spec _ _ _ _ Ka Kb eq_refl) in H.
+  destruct (ieee_mul ka kb) as [s|] eqn:T.
+  - right. injection H as <-. eauto.
+  - left. cbn [kind_of] in Ka, Kb.
+    destruct (dec_decode h1 l1) as [|n1|c1 e1] eqn:D1; destruct (dec_decode h2 l2) as [|n2|c2 e2] eqn:D2;
+      injection Ka as <-; injection Kb as <-; cbn in T; try discriminate;
+      try (destruct (c1 =? 0); discriminate); try (destruct (c2 =? 0); discriminate).
+    exists c1, e1, c2, e2. split; [reflexivity|]. split; [reflexivity|].
+    cbn [mul_finite] in H. unfold dec_binop, dec_operand, dec_of_d128 in H. rewrite D1, D2 in H.
+    cbn [dec_mul] in H. apply dec_result_exact_or_rejected. exact H.
+Qed.
+
+Theorem add_decimal_total h1 l1 h2 l2 r :
+  Add (VDecimal h1 l1) (VDecimal h2 l2) = Ok r ->
+  (exists c1 e1 c2 e2, dec_decode h1 l1 = DFin c1 e1 /\ dec_decode h2 l2 = DFin c2 e2 /\
+     let e := Z.min e1 e2 in
+     let c := c1 * zpow 10 (e1 - e) + c2 * zpow 10 (e2 - e) in
+     (r = VMissing \/
+      exists h l c' e', r = VDecimal h l /\ dec_decode h l = DFin c' e' /\ same_decimal c e c' e')) \/
+  (exists ka kb, kind_of (VDecimal h1 l1) = Some ka /\ kind_of (VDecimal h2 l2) = Some kb /\ ieee_add ka kb = Some r).
+Proof.
+  intro H.
+  destruct (kind_of (VDecimal h1 l1)) as [ka|] eqn:Ka; [|cbn in Ka; destruct (dec_decode h1 l1); discriminate].
+  destruct (kind_of (VDecimal h2 l2)) as [kb|] eqn:Kb; [|cbn in Kb; destruct (dec_decode h2 l2); discriminate].
+  rewrite (add_nonfinite_spec _ _ _ _ Ka Kb eq_refl) in H.
+  destruct (ieee_add ka kb) as [s|] eqn:T.
+  - right. injection H as <-. eauto.
+  - left. cbn [kind_of] in Ka, Kb.
+    destruct (dec_decode h1 l1) as [|n1|c1 e1] eqn:D1; destruct (dec_decode h2 l2) as [|n2|c2 e2] eqn:D2;
+      injection Ka as <-; injection Kb as <-; cbn in T; try discriminate;
+      try (destruct (Bool.eqb n1 n2); discriminate).
+    exists c1, e1, c2, e2. split; [reflexivity|]. split; [reflexivity|].
+    cbn [add_finite] in H. unfold dec_binop, dec_operand, dec_of_d128 in H. rewrite D1, D2 in H.
+    cbn [dec_add] in H. apply dec_result_exact_or_rejected. exact H.
+Qed.
+
+(* the former finding: Infinity + 5 is Infinity, 0 * Infinity is NaN, and a
+   double NaN next to a decimal gives the decimal NaN *)
+Theorem nonfinite_examples :
+  Add d128_pos_inf (VInt32 5) = Ok d128_pos_inf /\
+  Add d128_pos_inf d128_neg_inf = Ok d128_nan /\
+  Mul (VInt64 0) d128_neg_inf = Ok d128_nan /\
+  Mul (VInt32 (-2)) d128_pos_inf = Ok d128_neg_inf /\
+  Mul (VDouble 9221120237041090561) (VDecimal 3476778912330022912 1) = Ok d128_nan /\
+  Add (VDouble 18442240474082181120) (VDecimal 3476778912330022912 1) = Ok d128_neg_inf.
+Proof. vm_compute. repeat split; reflexivity. Qed.
